@@ -2,13 +2,15 @@
    Statements only; proofs in Proofs/LoaderProofs.v.  What is proved here is the
    framing half (see the evidence/notes for what remains correspondence-only:
    validator = specification decoder). *)
-From DV Require Import Lib.Base Wire.Body Wire.Message Spec.Codec Wire.HeaderEdit Proofs.LoaderProofs Proofs.CodecWf Proofs.CodecRoundtrip Proofs.BodyVbEq Proofs.BodyCursor Proofs.BodyComplete.
+From DV Require Import Lib.Base Wire.Body Wire.Message Spec.Codec Wire.HeaderEdit Proofs.LoaderProofs Proofs.CodecWf Proofs.CodecRoundtrip Proofs.BodyVbEq Proofs.BodyCursor Proofs.BodyComplete Proofs.CodecMessage Proofs.LoaderComplete.
 From Coq Require Import ZArith.
 Local Open Scope N_scope.
 
 (* Full statement (soundness + completeness against the specification decoder),
-   kept visible; decided today by the correspondence run with the extracted
-   [spec_decode_message] as oracle, not yet by a theorem. *)
+   kept visible.  COMPLETENESS is proved below (C01_complete, C01_demarshal_complete,
+   with C02_roundtrip); SOUNDNESS (whatever the loader accepts is the encoding of a
+   well-formed message) is decided per generated case by the correspondence run with
+   the extracted [spec_decode_message] as oracle, not yet by a theorem. *)
 Definition C01_full_statement : Prop :=
   forall d, 16 <= nlen d ->
     match demarshal d, spec_decode_message d with
@@ -68,6 +70,37 @@ Theorem C01_body_complete_partial : forall le vs, wfsb le vs 0 0 = true -> foral
   validate_body le (map ty_of_val vs) (encs le vs 0) = V_VALID.
 Proof. exact validate_body_complete. Qed.
 Print Assumptions C01_body_complete_partial.
+
+(* COMPLETENESS of the loader: every specification-valid message -- the canonical
+   serialisation E of a well-formed abstract message m ([wf_msg], plus the wire
+   premises [wire_ok]) -- followed by ANY bytes is framed as complete by the
+   loader model and accepted, and the message it queues is exactly E (header and
+   body slices, one loaded header field per field of m with its code, signature
+   and encoded value).  Together with C02_roundtrip (E decodes to m) this is the
+   "yields a message whenever the bytes are a well-formed message" half of the
+   property as a theorem about the model. *)
+Theorem C01_complete : forall m rest avail,
+  wf_msg m = true ->
+  wire_ok (fields_val (s_le m) (s_fields m)) = true -> forallb wire_ok (s_body m) = true ->
+  spec_nfds (s_fields m) <= avail ->
+  let E := spec_encode_message m in
+  have_message DBUS_MAXIMUM_MESSAGE_LENGTH (E ++ rest) = HaveOk (s_le m) (m_flen m) (m_hlen m) (m_blen m) true /\
+  exists hs, Forall2 (hf_ok (s_le m)) (s_fields m) hs /\
+    load_message (s_le m) (m_flen m) (m_hlen m) (m_blen m) avail (E ++ rest)
+      = inl (mkMsg (firstn (N.to_nat (m_hlen m)) E) (m_bodyb m) hs (spec_nfds (s_fields m))) /\
+    firstn (N.to_nat (m_hlen m)) E ++ m_bodyb m = E.
+Proof. exact loader_complete. Qed.
+Print Assumptions C01_complete.
+
+(* dbus_message_demarshal on a valid message (optionally followed by fewer than 16 bytes) *)
+Theorem C01_demarshal_complete : forall m rest,
+  wf_msg m = true -> wire_ok (fields_val (s_le m) (s_fields m)) = true -> forallb wire_ok (s_body m) = true ->
+  spec_nfds (s_fields m) = 0 -> nlen rest < 16 ->
+  exists hs, Forall2 (hf_ok (s_le m)) (s_fields m) hs /\
+    demarshal (spec_encode_message m ++ rest) = DemMsg (loaded_msg m hs) /\
+    m_header (loaded_msg m hs) ++ m_body (loaded_msg m hs) = spec_encode_message m.
+Proof. exact demarshal_complete. Qed.
+Print Assumptions C01_demarshal_complete.
 
 Definition ex_val : val :=
   VStruct [VNum 121 5; VArr (TBasic 98) [VNum 98 1; VNum 98 0]; VArr (TBasic 120) [VNum 120 7]; VArr (TDict 115 TVariant) [VDictE (VStr 115 [107]) (VVar (TArray (TBasic 115)) (VArr (TBasic 115) [VStr 115 [97]; VStr 115 []]))];
